@@ -43,6 +43,9 @@ class HarnessError(Exception):
     pass
 
 
+_SHARED = None
+
+
 def load_known_findings(prop):
     out = {}
     try:
@@ -73,6 +76,7 @@ def execute(mod, cfg, seed=None, prescribed=None):
 
 def _worker(args):
     modname, tier, base_seed, indices, cfg, wall_deadline, _ = args
+    indices = _SHARED[indices]       # inherited through fork (holds the shared counter)
     faulthandler.enable()
     faulthandler.dump_traceback_later(max(60.0, wall_deadline - time.time() + 120.0), exit=True)
     import importlib
@@ -80,11 +84,21 @@ def _worker(args):
     agg = _new_agg()
     enum_items = None
     try:
-        wk, nw, n_enum, n_runs = indices
-        import itertools
-        plan = itertools.chain((("e", i) for i in range(wk, n_enum, nw)),
-                               range(wk, n_runs, nw))
-        for item in plan:
+        wk, nw, n_enum, n_runs, counter, chunk = indices
+
+        def plan():
+            # dynamic distribution: every run depends only on its index, so which
+            # worker executes it does not matter for reproducibility
+            total_items = n_enum + n_runs
+            while True:
+                with counter.get_lock():
+                    start = counter.value
+                    counter.value = start + chunk
+                if start >= total_items:
+                    return
+                for j in range(start, min(start + chunk, total_items)):
+                    yield ("e", j) if j < n_enum else j - n_enum
+        for item in plan():
             if time.time() > wall_deadline:
                 agg["wall_capped"] = True
                 break
@@ -152,7 +166,7 @@ def _fold(agg, res, index, dt):
     agg["sim_s"] += res.get("sim_s", 0.0)
     if len(agg["samples"]) < 2 and res.get("nontrivial"):
         agg["samples"].append(res.get("sample"))
-    if len(agg["digests"]) < 64:
+    if (index[1] if isinstance(index, tuple) else index) < 64:
         agg["digests"].append((str(index), res.get("digest")))
     if res.get("violations"):
         sigs = [sg for sg, _ in res["violations"]]
@@ -193,19 +207,24 @@ def run_batch(mod, tier, base_seed, runs=None, wall=None, nworkers=None):
     t = mod.TIERS[tier]
     runs = runs if runs is not None else t["runs"]
     wall = wall if wall is not None else t["wall"]
-    nworkers = nworkers or NWORKERS
+    nworkers = nworkers or (NWORKERS if "VERIF_WORKERS" in os.environ
+                            else getattr(mod, "WORKERS", NWORKERS))
     cfg = mod.SIM_CFG(tier) if hasattr(mod, "SIM_CFG") else {}
     enum_items = mod.ENUM(tier) if hasattr(mod, "ENUM") else []
     n_items = len(enum_items) + runs
     deadline = time.time() + wall
     nworkers = max(1, min(nworkers, n_items))
-    shards = [(w, nworkers, len(enum_items), runs) for w in range(nworkers)]
-    total = _new_agg()
     ctx = multiprocessing.get_context("fork")
+    counter = ctx.Value("q", 0)
+    chunk = max(1, min(64, n_items // (nworkers * 16)))
+    shards = [(w, nworkers, len(enum_items), runs, counter, chunk) for w in range(nworkers)]
+    total = _new_agg()
     try:
         with ProcessPoolExecutor(max_workers=nworkers, mp_context=ctx) as ex:
-            futs = [ex.submit(_worker, (mod.__name__, tier, base_seed, sh, cfg, deadline,
-                                        None)) for sh in shards]
+            global _SHARED
+            _SHARED = shards
+            futs = [ex.submit(_worker, (mod.__name__, tier, base_seed, w, cfg, deadline,
+                                        None)) for w in range(nworkers)]
             for f in futs:
                 part = f.result(timeout=wall + 300)
                 part["states"] = set(part["states"])
@@ -382,7 +401,7 @@ def _mutant_child(args):
     undo = mod.MUTANTS[name]()
     enum_items = mod.ENUM(tier) if hasattr(mod, "ENUM") else []
     try:
-        t_end = time.time() + 40
+        t_end = time.time() + getattr(mod, 'MUTANT_WALL', 40)
         n = 0
         for idx, prefix in enumerate(enum_items):
             seed = derive_seed(base_seed, mod.PROPERTY, "enum", idx)
